@@ -6,8 +6,9 @@ for P in "$@"; do
   out="mutants/RESULTS-$P.txt"; : > "$out"
   for d in mutants/$P-*.diff; do
     [ -f "$d" ] || continue
-    res=$(tools/with_mutant.sh "$d" -- ./check "$P" --no-evidence 2>&1 | tail -1)
-    if echo "$res" | grep -q "FAIL"; then v=CAUGHT; else v=MISSED; fi
+    full=$(tools/with_mutant.sh "$d" -- ./check "$P" --no-evidence 2>&1)
+    res=$(echo "$full" | tail -1)
+    if echo "$full" | grep -q "patch does not apply"; then v=STALE-PATCH; elif echo "$res" | grep -q "FAIL"; then v=CAUGHT; else v=MISSED; fi
     cells=$(echo "$res" | sed -n 's/.*violating_cells=\([0-9]*\).*/\1/p')
     echo "$v $(basename "$d" .diff) violating_cells=$cells" | tee -a "$out"
   done
